@@ -6,7 +6,7 @@ designate (buffer, offset, len)); theorems in coq/C11/Properties.v; corresponden
 the real headers of the working tree on the same histories, under ASan+UBSan, for three element types.
 Decision rule on a difference: the independent value-level reference `Ref` below (no heap, no reference
 counts: owning arrays hold their own values, views name their source) judges the implementation's output."""
-import itertools, json, os, re, sys
+import itertools, json, os, re, sys, time
 import vlib
 sys.path.insert(0, os.path.dirname(os.path.abspath(__file__)))
 import factgen  # noqa: E402
@@ -408,7 +408,10 @@ def run_impl(ctx, exe, arg, cases, max_crashes=8):
     crashes = []
     start = 0
     while start < len(cases):
-        rc, out, err = vlib.run_lines(ctx, exe, [arg], cases[start:], timeout=900)
+        left = ctx.pick(240, 1500) - (time.time() - ctx.t0)
+        if left < 20 and crashes:
+            break
+        rc, out, err = vlib.run_lines(ctx, exe, [arg], cases[start:], timeout=max(45, min(900, left)))
         if out == [""]:
             out = []          # the process died before completing its first case
         for j, l in enumerate(out[:len(cases) - start]):
@@ -713,19 +716,63 @@ def facts_diagnosis(ctx):
     return " ".join(out.split())[:1500]
 
 
+def stage(ctx, name, fn, default=None):
+    """run one stage of the check; an exception is recorded (naming the stage) and the check goes on"""
+    try:
+        return fn()
+    except Exception as ex:
+        import traceback
+        ctx.broken.append("stage '%s' raised %r" % (name, ex))
+        ctx.log("stage '%s' raised:\n%s" % (name, traceback.format_exc()[-1500:]))
+        return default
+
+
+def over_budget(ctx, frac=1.0):
+    """wall-clock guard for the whole run (quick: 4 min, thorough: 25 min)"""
+    return time.time() - ctx.t0 > frac * ctx.pick(240, 1500)
+
+
+def build_harness(ctx):
+    """the harness uses the public interface only; if it does not compile against this tree (a renamed / removed public
+    member, a failing static_assert) the reduced build -DC11_FALLBACK (no static_asserts, no make_ArrayView, no
+    FixedArray::View) is tried, so that the oracle-judged histories still run"""
+    flags = ["-D_GLIBCXX_SANITIZE_VECTOR"]
+    n0 = len(ctx.log_lines)
+    exe = ctx.cxx(["harness.cpp"], "harness", sanitize="asan", flags=flags)
+    if exe:
+        return exe, False
+    errs = [l for l in "\n".join(ctx.log_lines[n0:]).splitlines() if "error" in l]
+    ctx.broken.append("harness build against this tree failed; first error: %s" % (errs[0].strip()[:300] if errs else "?"))
+    exe = ctx.cxx(["harness.cpp"], "harness_fallback", sanitize="asan", flags=flags + ["-DC11_FALLBACK"])
+    if exe:
+        ctx.log("using the reduced harness build (-DC11_FALLBACK)")
+    return exe, True
+
+
 def run(ctx):
-    facts = regenerate_facts(ctx)
-    res = ctx.coq_check(("Properties.v", "PropertiesFacts.v"))
+    # nothing may abort the check: the evidence file is written by ctx.finish() after run() returns
+    stage(ctx, "run", lambda: _run(ctx))
+
+
+def _run(ctx):
+    facts = stage(ctx, "fact extraction", lambda: regenerate_facts(ctx), {}) or {}
+    res = stage(ctx, "coq build", lambda: ctx.coq_check(("Properties.v", "PropertiesFacts.v")), {}) or {}
     facts_ok = bool(res.get("facts_match"))
     ctx.cov["source_facts"] = {"special": facts.get("special"), "table": facts.get("table"), "exprs": facts.get("exprs"),
                                "notes": facts.get("notes"), "facts_match": facts_ok}
     if not facts_ok:
-        diag = facts_diagnosis(ctx)
+        diag = stage(ctx, "fact diagnosis", lambda: facts_diagnosis(ctx), "") or ""
         ctx.cov["source_facts"]["diagnosis(check_special, check_exprs, failing member/operation pairs)"] = diag
         ctx.log("fact table of this tree does NOT match Model.v: " + diag[:600])
-    model = ctx.extract(snippets=["conv_N.ml", "conv_nat.ml"])
-    exe = ctx.cxx(["harness.cpp"], "harness", sanitize="asan", flags=["-D_GLIBCXX_SANITIZE_VECTOR"])
-    if not model or not exe:
+    # the extracted model needs Model.vo only; without it the histories still run, judged by the python reference
+    model = stage(ctx, "extraction / OCaml model build", lambda: ctx.extract(snippets=["conv_N.ml", "conv_nat.ml"]))
+    if not model:
+        ctx.log("no executable model: the real code is run anyway and judged by the value-level reference + sanitizers")
+    exe, fallback = stage(ctx, "harness build", lambda: build_harness(ctx), (None, False)) or (None, False)
+    ctx.cov["stages"] = {"facts_extracted": bool(facts.get("table")), "facts_match": facts_ok, "model_built": bool(model),
+                         "harness_built": bool(exe), "harness_fallback_build": bool(fallback)}
+    if not exe:
+        ctx.broken.append("no harness build exists for this tree: the histories could not be run on the real code")
         return
     r = ctx.rng("cases")
     cases = []
@@ -741,70 +788,81 @@ def run(ctx):
     dcases = [gen_D(r) for _ in range(nd)]
     cases += dcases
 
-    rc, mlines, merr = vlib.run_lines(ctx, model, [], cases)
-    if rc != 0 or len(mlines) != len(cases):
-        ctx.broken.append("model driver failed rc=%s lines=%d/%d %s" % (rc, len(mlines), len(cases), merr[-300:]))
-        return
-    # the value-level reference and the Coq model must agree everywhere (both describe the repaired code)
     olines = [oracle(c) for c in cases]
-    bad = [i for i in range(len(cases)) if not omatch(olines[i], mlines[i])]
-    if bad:
-        ctx.broken.append("Coq model and the python reference disagree on %d cases, first: %r model=%r reference=%r"
-                          % (len(bad), cases[bad[0]], mlines[bad[0]][-300:], olines[bad[0]][-300:]))
+    have_model = False
+    mlines = None
+    if model:
+        rc, mlines, merr = stage(ctx, "model run", lambda: vlib.run_lines(ctx, model, [], cases), (1, [], "")) or (1, [], "")
+        if rc != 0 or len(mlines) != len(cases):
+            ctx.broken.append("model driver failed rc=%s lines=%d/%d %s" % (rc, len(mlines), len(cases), merr[-300:]))
+        else:
+            have_model = True
+            # the value-level reference and the Coq model must agree everywhere (both describe the repaired code)
+            bad = [i for i in range(len(cases)) if not omatch(olines[i], mlines[i])]
+            if bad:
+                ctx.broken.append("Coq model and the python reference disagree on %d cases, first: %r model=%r reference=%r"
+                                  % (len(bad), cases[bad[0]], mlines[bad[0]][-300:], olines[bad[0]][-300:]))
+    if not have_model:
+        # bookkeeping (operation histogram, inventory counters) from the reference's lines; its "not judged" tail is
+        # replaced by a neutral skipped step
+        mlines = [l.replace(WILD + WILD, "skip|- - - -|- - -").replace(WILD, "") for l in olines]
+    ctx.cov["stages"]["model_run"] = have_model
 
-    hist, kinds, stale, steps_total = {}, {}, 0, 0
-    alias_exec = {}
-    for c, ml in zip(cases, mlines):
-        if c[0] != "H":
-            continue
-        ops = c.split()[1:]
-        st = ml.split(" ; ")
-        steps_total += len(ops)
-        interesting = False
-        for tok, s in zip(ops, st):
-            tf = tok.split(":")
-            selfal = (tf[0] == "rw" and tf[1] == tf[2]) or (tf[0] == "rr" and tf[1] == tf[3]) or (tf[0] in ("ca", "ma") and tf[1] == tf[2])
-            key = tf[0] + ("(self)" if selfal else "") + ("" if s.startswith("ok|") else "(skip)")
-            if s.startswith("ok|") and tf[0] in ("rw", "rr", "pw", "ca", "ma"):
-                # class of the wrapper the member was called on = kind letter of slot i after the step
-                kl = s.split("|")[1].split(" ")[int(tf[1])][:1]
-                akey = (tf[0] + ("(self)" if selfal else ""), kl)
-                alias_exec[akey] = alias_exec.get(akey, 0) + 1
-            hist[key] = hist.get(key, 0) + 1
-            if s.startswith("ok|") and tok.split(":")[0] in ("cc", "mc", "ca", "ma", "resize", "fview", "del", "asrc", "rptr", "reset", "pw", "rw", "rr"):
-                interesting = True
-        for m in re.finditer(r"([VOFW])(\d+)[zp]\[", st[-1]):
-            kinds[m.group(1)] = kinds.get(m.group(1), 0) + 1
-        stale += ml.count("[stale]")
-        if interesting and len(set(s.split("|")[1] for s in st)) >= 3:
-            ctx.nontriv(c)
-    for c in dcases:
-        ctx.nontriv(c)
-    xcnt = exec_counters(cases, mlines, facts_ok, True)
-    ctx.cov["inventory"] = inventory_check(ctx, facts.get("inventory") or [], xcnt)
-    ctx.cov["reference_returning_members"] = refret_coverage(ctx, facts.get("signatures") or [], xcnt)
-    ctx.cov["op_histogram"] = hist
-    ctx.cov["aliasing_variants_per_member_parameter"] = alias_coverage(ctx, facts.get("signatures") or [], alias_exec)
-    ctx.cov["wrapper_kinds_in_final_states"] = kinds
-    ctx.cov["stale_view_observations"] = stale
-    ctx.cov["history_steps"] = steps_total
-    ctx.cov["case_mix"] = {"corpus": ncorp, "random_histories": nrand, "exhaustive_histories": len(exh), "dataview_cases": nd}
-    sh = {}
-    for c in dcases:
-        t = c.split()
-        key = "sizeof=%s %s" % (t[1], "packed" if t[3] == t[1] else ("stride0" if t[3] == "0" else ("overlap" if int(t[3]) < int(t[1]) else "padded")))
-        sh[key] = sh.get(key, 0) + 1
-    ctx.cov["dataview_layouts"] = sh
-    ctx.rule = ("histories (length<=30, random, biased to operations whose precondition holds, 12%% wild) over 4 wrapper slots and 3 source "
-                "containers (std::vector and std::array<T,0..6>) plus all histories up to length %d over a 31-op alphabet and up to length %d "
-                "over a 21-op alphabet after a fixed 2-source prefix; after every step size(), data()==nullptr, every element by iteration, "
-                "operator[], at(i) for all i<size and at(size()), at(size()+1), at(SIZE_MAX), begin/end/cbegin/cend are compared; each run "
-                "for uint8_t, int and a 24-byte struct under ASan+UBSan; (pointer, size) arguments are taken from source containers, "
-                "nullptr, and from WRAPPERS' own storage (pw / rw: w_i.reset(w_j.data()+off, n) with j = i for every off, through a view "
-                "over the array itself, from other wrappers), plus self copy-/move-assignment; DataView cases with packed/padded/overlapping/zero strides for "
-                "sizeof 1,2,3,4,5,7,8,24 in exact-size heap buffers. non-trivial = a history in which a copy/move/assign/resize/reset/"
-                "view/destroy step took effect and the wrappers went through >=3 distinct states (every DataView case counts)"
-                % (ctx.pick(2, 3), ctx.pick(3, 4)))
+    def bookkeeping():
+      hist, kinds, stale, steps_total = {}, {}, 0, 0
+      alias_exec = {}
+      for c, ml in zip(cases, mlines):
+          if c[0] != "H":
+              continue
+          ops = c.split()[1:]
+          st = ml.split(" ; ")
+          steps_total += len(ops)
+          interesting = False
+          for tok, s in zip(ops, st):
+              tf = tok.split(":")
+              selfal = (tf[0] == "rw" and tf[1] == tf[2]) or (tf[0] == "rr" and tf[1] == tf[3]) or (tf[0] in ("ca", "ma") and tf[1] == tf[2])
+              key = tf[0] + ("(self)" if selfal else "") + ("" if s.startswith("ok|") else "(skip)")
+              if s.startswith("ok|") and tf[0] in ("rw", "rr", "pw", "ca", "ma"):
+                  # class of the wrapper the member was called on = kind letter of slot i after the step
+                  kl = s.split("|")[1].split(" ")[int(tf[1])][:1]
+                  akey = (tf[0] + ("(self)" if selfal else ""), kl)
+                  alias_exec[akey] = alias_exec.get(akey, 0) + 1
+              hist[key] = hist.get(key, 0) + 1
+              if s.startswith("ok|") and tok.split(":")[0] in ("cc", "mc", "ca", "ma", "resize", "fview", "del", "asrc", "rptr", "reset", "pw", "rw", "rr"):
+                  interesting = True
+          for m in re.finditer(r"([VOFW])(\d+)[zp]\[", st[-1]):
+              kinds[m.group(1)] = kinds.get(m.group(1), 0) + 1
+          stale += ml.count("[stale]")
+          if interesting and len(set(s.split("|")[1] for s in st)) >= 3:
+              ctx.nontriv(c)
+      for c in dcases:
+          ctx.nontriv(c)
+      xcnt = exec_counters(cases, mlines, facts_ok, not fallback)
+      ctx.cov["inventory"] = inventory_check(ctx, facts.get("inventory") or [], xcnt)
+      ctx.cov["reference_returning_members"] = refret_coverage(ctx, facts.get("signatures") or [], xcnt)
+      ctx.cov["op_histogram"] = hist
+      ctx.cov["aliasing_variants_per_member_parameter"] = alias_coverage(ctx, facts.get("signatures") or [], alias_exec)
+      ctx.cov["wrapper_kinds_in_final_states"] = kinds
+      ctx.cov["stale_view_observations"] = stale
+      ctx.cov["history_steps"] = steps_total
+      ctx.cov["case_mix"] = {"corpus": ncorp, "random_histories": nrand, "exhaustive_histories": len(exh), "dataview_cases": nd}
+      sh = {}
+      for c in dcases:
+          t = c.split()
+          key = "sizeof=%s %s" % (t[1], "packed" if t[3] == t[1] else ("stride0" if t[3] == "0" else ("overlap" if int(t[3]) < int(t[1]) else "padded")))
+          sh[key] = sh.get(key, 0) + 1
+      ctx.cov["dataview_layouts"] = sh
+      ctx.rule = ("histories (length<=30, random, biased to operations whose precondition holds, 12%% wild) over 4 wrapper slots and 3 source "
+                  "containers (std::vector and std::array<T,0..6>) plus all histories up to length %d over a 31-op alphabet and up to length %d "
+                  "over a 21-op alphabet after a fixed 2-source prefix; after every step size(), data()==nullptr, every element by iteration, "
+                  "operator[], at(i) for all i<size and at(size()), at(size()+1), at(SIZE_MAX), begin/end/cbegin/cend are compared; each run "
+                  "for uint8_t, int and a 24-byte struct under ASan+UBSan; (pointer, size) arguments are taken from source containers, "
+                  "nullptr, and from WRAPPERS' own storage (pw / rw: w_i.reset(w_j.data()+off, n) with j = i for every off, through a view "
+                  "over the array itself, from other wrappers), plus self copy-/move-assignment; DataView cases with packed/padded/overlapping/zero strides for "
+                  "sizeof 1,2,3,4,5,7,8,24 in exact-size heap buffers. non-trivial = a history in which a copy/move/assign/resize/reset/"
+                  "view/destroy step took effect and the wrappers went through >=3 distinct states (every DataView case counts)"
+                  % (ctx.pick(2, 3), ctx.pick(3, 4)))
+    stage(ctx, "bookkeeping / inventory", bookkeeping)
     for c in cases[ncorp:ncorp + 2] + dcases[:1]:
         ctx.sample({"case": c[:300], "model_and_impl": mlines[cases.index(c)][-300:]})
 
@@ -812,12 +870,15 @@ def run(ctx):
     ndiff = {}
     nshrunk = {}
     nmism = 0
-    for tname, arg in TYPES:
+    def one_type(tname, arg):
+        nonlocal nmism
         label = "wrappers<%s>" % tname
         ilines, crashes = run_impl(ctx, exe, arg, cases)
         ctx.count(sum(1 for l in ilines if l is not None))
 
         def fails(ops, arg=arg, kind="H"):
+            if over_budget(ctx, 0.9):
+                return False          # stop shrinking: report what we have
             line = kind + " " + " ".join(ops)
             rc, out, err = ctx.run_exe(exe, [arg], stdin=line + "\n", timeout=60)
             return rc != 0 or not accepts(line, out.strip("\n"))
@@ -849,7 +910,7 @@ def run(ctx):
                            "sanitizer": asan_summary(err2) or summ, "required": oracle(line).replace(WILD, "?")})
         for i in range(len(cases)):
             il = ilines[i]
-            if il is None or il == mlines[i]:
+            if il is None or (have_model and il == mlines[i]) or (not have_model and omatch(olines[i], il)):
                 continue
             nmism += 1
             if not accepts(cases[i], il):
@@ -871,9 +932,14 @@ def run(ctx):
                               "last operation)" % label,
                               {"label": label, "case": line, "original_case": cases[i], "observed": out2.strip() or ("<aborted rc=%d>" % rc2),
                                "sanitizer": asan_summary(err2), "required": oracle(line).replace(WILD, "?")})
-            elif not any(b.startswith("correspondence C11 model vs " + label) for b in ctx.broken):
+            elif have_model and not any(b.startswith("correspondence C11 model vs " + label) for b in ctx.broken):
                 ctx.broken.append("correspondence C11 model vs %s on case %r: impl=%r model=%r (impl satisfies the reference)"
                                   % (label, cases[i], il[-200:], mlines[i][-200:]))
+    for tname, arg in TYPES:
+        if over_budget(ctx, 0.8):
+            ctx.broken.append("wall-clock budget reached: element type %s not run" % tname)
+            continue
+        stage(ctx, "differential run " + tname, lambda: one_type(tname, arg))
     ctx.cov["mismatches"] = nmism
     ctx.trusted += ["fact extractor props/C11/factgen.py over `clang++ -std=c++11 -fsyntax-only -Xclang -ast-dump=json "
                     "-Xclang -ast-dump-filter=rkcommon::utility` of a TU instantiating the six wrappers (classifies mem-initialisers and "
@@ -895,4 +961,4 @@ def run(ctx):
                         "is skipped on both sides",
                         "a non-owning ArrayView is allowed to dangle once its source container is destroyed or replaced (not a violation)"]
     if ctx.thorough():
-        ctx.coq_thorough_chk(["C11.Properties", "C11.PropertiesFacts"])
+        stage(ctx, "coqchk", lambda: ctx.coq_thorough_chk(["C11.Properties", "C11.PropertiesFacts"]))
